@@ -1477,7 +1477,9 @@ int __wrap(pthread_spin_lock)(pthread_spinlock_t *lock) {
   int ret;
   (void)_;
   if (myth_should_wrap_pthread()) {
-    ret = myth_spin_lock_body((myth_spinlock_t *)lock);
+    /* myth_spin_lock_body returns the number of failed attempts, not an error code */
+    myth_spin_lock_body((myth_spinlock_t *)lock);
+    ret = 0;
   } else {
     ret = real_pthread_spin_lock(lock);
   }
@@ -1491,7 +1493,8 @@ int __wrap(pthread_spin_trylock)(pthread_spinlock_t *lock) {
   int ret;
   (void)_;
   if (myth_should_wrap_pthread()) {
-    ret = myth_spin_trylock_body((myth_spinlock_t *)lock);
+    /* myth_spin_trylock_body returns 1 on success; POSIX wants 0 / EBUSY */
+    ret = myth_spin_trylock_body((myth_spinlock_t *)lock) ? 0 : EBUSY;
   } else {
     ret = real_pthread_spin_trylock(lock);
   }
